@@ -139,6 +139,7 @@ class Shadow:
             self.built, self.ran, self.changed, self.value, self.sig, self.deps, self.orderonly = {}, {}, {}, {}, {}, {}, {}
             self.epoch = 0
         self.flag = set()
+        self.uncertain = set()      # completion raced with a cancellation: processed or dropped, the trace cannot tell
 
     def apply_build(self, b, rules, env):
         """Judge one build's events, then advance the shadow. rules: key -> dict(sig, obs, follow, ...) seen by this engine instance."""
@@ -158,6 +159,8 @@ class Shadow:
                     errs.append(("reason-twice", "rule %d got two run reasons in one build" % k))
                 needed[k] = (reason, inp)
                 r = rules.get(k, {})
+                if k in self.uncertain or (inp is not None and inp in self.uncertain):
+                    continue
                 if reason == 0 and k in self.built:
                     errs.append(("reason-false-neverbuilt", "rule %d reported NeverBuilt but it was built at epoch %d" % (k, self.built[k])))
                 if reason == 1 and (k not in self.built or self.sig.get(k) == r.get("sig", 0)):
@@ -196,7 +199,10 @@ class Shadow:
                 self.built[k] = e
                 self.ran[k] = e
                 self.flag.discard(k)
+                self.uncertain.discard(k)
                 self.orderonly[k] = set(rules.get(k, {}).get("follow", []))
+                if aborted:
+                    self.uncertain.add(k)
             else:
                 self.flag.add(k)
         if not aborted:
